@@ -306,3 +306,91 @@ pub fn encode_values(k: Kind, seed: u64) -> Vec<(Vec<u8>, u128)> {
     }
     out
 }
+
+/// Byte-lane walk: for a handful of valid base encodings of kind `k`, every byte position takes all
+/// 256 values (one position at a time).  Used on the decode side and, where the result is a
+/// representable value, on the encode side.  (value, transaction id)
+pub fn lane_walk(k: Kind, seed: u64) -> Vec<(Vec<u8>, u128)> {
+    let t0: u128 = 0x0102_0304_0506_0708_090A_0B0C;
+    let t1: u128 = ((seed as u128) << 23 | 0x8000_0000_0000_0000_0000_0001) & ((1u128 << 96) - 1);
+    let mut bases: Vec<(Vec<u8>, u128)> = Vec::new();
+    let mut b = |v: Vec<u8>| bases.push((v, t0));
+    match k {
+        Kind::Username | Kind::Realm | Kind::Nonce | Kind::Software | Kind::AlternateDomain => {
+            b(b"abcd".to_vec());
+            b(b"x".to_vec());
+            b("\u{e9}\u{e9}".as_bytes().to_vec());
+            b(b"a.b-c".to_vec());
+            b("\u{2603}z".as_bytes().to_vec());
+        }
+        Kind::MessageIntegrity => {
+            b(vec![0; 20]);
+            b((1..=20).collect());
+        }
+        Kind::MessageIntegritySha256 => {
+            b(vec![0; 32]);
+            b((1..=16).collect());
+            b(vec![0xFF; 24]);
+        }
+        Kind::Userhash => {
+            b(vec![0; 32]);
+            b((100..132).collect());
+        }
+        Kind::Fingerprint | Kind::Priority => {
+            b(vec![0; 4]);
+            b(vec![0xFF; 4]);
+            b(vec![0x12, 0x34, 0x56, 0x78]);
+        }
+        Kind::ErrorCode => {
+            b(vec![0, 0, 4, 20, b'a', b'b']);
+            b(vec![0, 0, 3, 0]);
+            b(vec![0, 0, 6, 99, 0xC3, 0xA9]);
+        }
+        Kind::UnknownAttributes => {
+            b(vec![0x00, 0x06, 0x7F, 0x00]);
+            b(vec![0x80, 0x22]);
+            b(vec![0, 1, 0, 2, 0, 3]);
+        }
+        Kind::PasswordAlgorithm => {
+            b(vec![0, 1, 0, 0]);
+            b(vec![0, 2, 0, 0]);
+        }
+        Kind::PasswordAlgorithms => {
+            b(vec![0, 1, 0, 0, 0, 2, 0, 0]);
+            b(vec![0, 2, 0, 0]);
+            b(vec![0, 2, 0, 0, 0, 1, 0, 0, 0, 2, 0, 0]);
+        }
+        Kind::XorMappedAddress | Kind::AlternateServer => {
+            drop(b);
+            for t in [t0, t1] {
+                bases.push((vec![0, 1, 0x12, 0x34, 192, 0, 2, 1], t));
+                bases.push((vec![0, 1, 0, 0, 0, 0, 0, 0], t));
+                let mut v6 = vec![0, 2, 0xAB, 0xCD];
+                v6.extend_from_slice(&[0x20, 0x01, 0x0d, 0xb8, 0x12, 0x34, 0x56, 0x78, 0x00, 0x11, 0x22, 0x33, 0x44, 0x55, 0x66, 0x77]);
+                bases.push((v6, t));
+                let mut z6 = vec![0, 2, 0, 0];
+                z6.extend_from_slice(&[0xFF; 16]);
+                bases.push((z6, t));
+            }
+        }
+        Kind::UseCandidate => {}
+        Kind::IceControlled | Kind::IceControlling => {
+            b(vec![0; 8]);
+            b(vec![0xFF; 8]);
+            b(vec![1, 2, 3, 4, 5, 6, 7, 8]);
+        }
+    }
+    let mut out = Vec::new();
+    for (base, t) in bases {
+        for pos in 0..base.len() {
+            for v in 0..=255u8 {
+                let mut x = base.clone();
+                x[pos] = v;
+                out.push((x, t));
+            }
+        }
+    }
+    out.sort();
+    out.dedup();
+    out
+}
